@@ -23,10 +23,17 @@ Lemma no_escape_app_inv a b : no_escape (a ++ b) -> no_escape a /\ no_escape b.
 Proof. unfold no_escape. rewrite forallb_app. intros H. apply andb_true_iff in H. exact H. Qed.
 
 Lemma ufatal_no_escape k : no_escape (ufatal k).
-Proof. unfold ufatal. rewrite dr_catches_everything. reflexivity. Qed.
+Proof. unfold ufatal. destruct (abstain_code k); [reflexivity|]. rewrite dr_catches_everything. reflexivity. Qed.
 
-Lemma ufatal_closes k : In ULose (ufatal k) /\ In UErrorSent (ufatal k).
-Proof. unfold ufatal. rewrite dr_catches_everything. cbn. auto. Qed.
+(* every exception kind; 97 / 98 are not exception kinds but the abstention marker of lib/Unsl.v *)
+Lemma ufatal_closes k : abstain_code k = false -> In ULose (ufatal k) /\ In UErrorSent (ufatal k).
+Proof. intros A. unfold ufatal. rewrite A, dr_catches_everything. cbn. auto. Qed.
+
+Lemma ufatal_abstains k : abstain_code k = true -> ufatal k = [UUnmodelled].
+Proof. intros A. unfold ufatal. rewrite A. reflexivity. Qed.
+
+Lemma ufatal_not_abstained k : abstain_code k = false -> abstained (ufatal k) = false.
+Proof. intros A. unfold ufatal. rewrite A, dr_catches_everything. reflexivity. Qed.
 
 Section Proofs.
 Variable fr : Type.
@@ -659,8 +666,8 @@ Proof.
 Qed.
 
 (* every way of abandoning the connection on an exception sends ERROR and closes *)
-Theorem unsl_fatal_sends_error_and_closes k : In UErrorSent (ufatal k) /\ In ULose (ufatal k).
-Proof. destruct (ufatal_closes k). auto. Qed.
+Theorem unsl_fatal_sends_error_and_closes k : abstain_code k = false -> In UErrorSent (ufatal k) /\ In ULose (ufatal k).
+Proof. intros A. destruct (ufatal_closes k A). auto. Qed.
 
 End Proofs.
 
